@@ -42,8 +42,12 @@ struct State {
 const BORROWED_RETURNS: [&str; 4] = ["c_ref", "c_mut", "c_group_ref", "c_group_mut"];
 const N_FAMILIES: usize = factory::N_SINGLE + 5;
 
+fn fam(name: &str) -> i64 {
+    (0..N_FAMILIES).find(|f| family_name(*f) == name).expect("unknown family") as i64
+}
+
 fn family_name(f: usize) -> &'static str {
-    ["Basic", "ReadOnly", "Shapes", "IntRes", "Consume", "Children", "ChildrenMore", "Debug", "Display", "AsRef", "GrpA", "GrpR", "GrpB", "GrpD", "GrpC"][f]
+    ["Basic", "ReadOnly", "Shapes", "IntRes", "Consume", "Children", "ChildrenMore", "Debug", "Display", "AsRef", "IntResMixed", "GrpA", "GrpR", "GrpB", "GrpD", "GrpC"][f]
 }
 
 fn create_pair(st: &mut State, family: usize, mask: u32, cont: usize, ctxsel: usize) -> Option<Pair> {
@@ -506,12 +510,15 @@ impl Engine for ObjEngine {
             }
         }
         // family pool of this run (swarm)
-        let fam_pool: Vec<i64> = match f.as_str() {
-            "casts" => vec![10, 11, 12, 12, 12, 13, 14, 14],
-            "intres" => vec![3, 3, 3, 10, 11, 6, 14, 7, 8],
-            "ctx" => vec![5, 5, 6, 12, 12, 14, 4, 0, 10, 13],
-            _ => (0..N_FAMILIES as i64).collect(),
+        let names: Vec<&str> = match f.as_str() {
+            "casts" => vec!["GrpA", "GrpR", "GrpB", "GrpB", "GrpB", "GrpD", "GrpC", "GrpC"],
+            // only families whose methods are integer-coded (or deliberately not): a crash in this
+            // focus is attributable to the int-result plumbing
+            "intres" => vec!["IntRes", "IntRes", "IntResMixed", "IntResMixed", "ChildrenMore", "Debug", "Display"],
+            "ctx" => vec!["Children", "Children", "ChildrenMore", "GrpB", "GrpB", "GrpC", "Consume", "Basic", "GrpA", "GrpD"],
+            _ => (0..N_FAMILIES).map(family_name).collect(),
         };
+        let fam_pool: Vec<i64> = names.iter().map(|n| fam(n)).collect();
         let ctx_mode = rng.below(4); // 0: mixed, 1: none, 2: arc only, 3: mixed without borrowed children
         p.set("ctx_mode", ctx_mode as i64);
         let no_borrowed = ctx_mode == 3 || (f == "ctx" && rng.chance(1, 3));
